@@ -127,6 +127,12 @@ def run(ctx):
     # the names source of C11 (identifiers that collide after normalisation, links to zones that get removed, '+', '-', '_')
     import c11 as _c11
     srcs.append(("names", _c11.NAMES_SOURCE, 2000, 2050))
+    # two tiny sources for the in-process sequences (R1c): their zone names differ but normalise to the same C++ identifier, and
+    # a zone of the same name has no rules in one and several transitions a year in the other
+    srcs.append(("syma", "Zone\tTest/Sym-Bol\t1:00\t-\tAAA\nZone\tTest/Shared\t1:00\t-\tSHA\n", 2000, 2050))
+    srcs.append(("symb", "Rule\tPS\t1990\tmax\t-\tFeb\tSun>=8\t2:00\t1:00\tD\nRule\tPS\t1990\tmax\t-\tApr\tSun>=8\t2:00\t0\tS\n"
+                 "Rule\tPS\t1990\tmax\t-\tJun\tSun>=8\t2:00\t1:00\tD\nRule\tPS\t1990\tmax\t-\tAug\tSun>=8\t2:00\t0\tS\n"
+                 "Zone\tTest/Sym_Bol\t2:00\t-\tBBB\nZone\tTest/Shared\t2:00\tPS\tS%sT\n", 2000, 2050))
     jobs = []
     for label, src, sy, uy in srcs:
         for scope in ("extended", "basic"):
@@ -272,7 +278,12 @@ def run(ctx):
             if missing:
                 ctx.violation("R5-subset:" + label, {"zones": missing[:10]}, "%s: zones emitted in basic scope but not in extended scope: %s" % (label, missing[:10]))
             trunc = c03lib.truncated_zones(tzb) | c03lib.truncated_zones(tzx)
-            exe = compilelib.build_with_generated("C20", "sweep_" + label, "sweep.cpp", x_out=outx, x_ns="nse", b_out=outb, b_ns="nsb")
+            try:
+                exe = compilelib.build_with_generated("C20", "sweep_" + label, "sweep.cpp", x_out=outx, x_ns="nse", b_out=outb, b_ns="nsb")
+            except compilelib.GeneratedDoesNotCompile as e:
+                ctx.violation("generated-does-not-compile:" + label, {"corpus": label, "compiler": str(e)[-1200:]},
+                              "%s: the generated C++ artifacts are not valid C++: %s" % (label, str(e)[-400:]))
+                continue
             bz, xz = sweeplib.list_zones(exe, "b"), sweeplib.list_zones(exe, "x")
             xi = {z: i for i, z in enumerate(xz)}
             shared = [z for z in bz if z in xi and z not in trunc]
@@ -296,7 +307,10 @@ def run(ctx):
     seqs = [[("seconds", "basic", "arduino"), ("seconds", "extended", "arduino"), ("names", "extended", "python"), ("names", "basic", "python"),
              ("names", "basic", "arduino"), ("seconds", "extended", "python"), ("seconds", "basic", "python"), ("names", "extended", "arduino")],
             [("names", "extended", "arduino"), ("seconds", "extended", "python"), ("seconds", "extended", "arduino"), ("seconds", "basic", "arduino"),
-             ("names", "basic", "python"), ("names", "extended", "python"), ("seconds", "basic", "python"), ("names", "basic", "arduino")]]
+             ("names", "basic", "python"), ("names", "extended", "python"), ("seconds", "basic", "python"), ("names", "basic", "arduino")],
+            [("syma", "extended", "arduino"), ("symb", "extended", "arduino"), ("syma", "basic", "arduino"), ("symb", "basic", "arduino"),
+             ("syma", "extended", "python"), ("symb", "extended", "python"), ("symb", "basic", "python"), ("syma", "basic", "python"),
+             ("syma", "extended", "arduino")]]
     yrs = {l_: (sy_, uy_) for l_, s_, sy_, uy_ in srcs}
     for si, seq in enumerate(seqs):
         jl = []
